@@ -560,6 +560,8 @@ def impl(case):
             return exchange_impl(case)
         if op == 11:
             return response_impl(case)
+        if op == 12:
+            return rerender_impl(case)
     except Exception as e:  # noqa
         return exc_code(e)
     return Err(998, "bad op")
@@ -589,6 +591,28 @@ def exchange_impl(case):
         except dns.tsig.BadSignature:
             pass
     return [qw, rw, bytes(q.mac), int(bool(sq.had_tsig)), int(bool(cr.had_tsig)), unbound]
+
+
+def rerender_impl(case):
+    """one Message object, to_wire called once per clock value; the tsig_ctx argument of every call
+    is a fresh context with the same content (sign updates the context it is given)"""
+    _, wire, k, owner, rd, nows, rmac, cx, multi, _tab = case
+    key = mk_key(k)
+    rdata = mk_rdata(rd)
+    mk_ctx(cx)
+    m = dns.message.from_wire(bytes(wire))
+    m.use_tsig(key, fudge=rdata.fudge, original_id=rdata.original_id, tsig_error=int(rdata.error), other_data=rdata.other)
+    m.request_mac = bytes(rmac)
+    out = []
+    for now in nows:
+        try:
+            with clock(now):
+                w = m.to_wire(multi=bool(multi), tsig_ctx=mk_ctx(cx), want_shuffle=False)
+        except Exception as e:  # noqa
+            out.append(exc_code(e))
+            break
+        out.append([w, probe(m.tsig_ctx)])
+    return out
 
 
 def response_impl(case):
@@ -1361,6 +1385,32 @@ def gen_exchange_case(rng):
     return [10, w, gen_key(rng, 0), rng.choice([1700000000, 2 ** 32 - 1, 2 ** 40]), rng.choice([0, 1, 300])]
 
 
+def gen_rerender_case(rng, shape):
+    """shape 0: single message, 1: first envelope (multi, no context), 2: later envelope (explicit context)"""
+    wire = lib_wire(rng)
+    k = gen_key(rng, 0)
+    fudge = rng.choice(FUDGES)
+    oid = rng.randrange(65536) if rng.random() < 0.5 else struct.unpack("!H", wire[:2])[0]
+    rmac = b"" if rng.random() < 0.3 else gen_mac(rng)
+    base = gen_time(rng) % (2 ** 48 - 10)
+    nows = [base + (0 if rng.random() < 0.5 else j) for j in range(rng.choice([2, 3]))]
+    rd = [list(k[2]), 0, fudge, b"\0" * rfc_alg(k[2])[1], oid, 0, b""]
+    cx, multi, running = None, 0, None
+    if shape == 1:
+        multi = 1
+    elif shape == 2:
+        prior = gen_mac(rng)
+        running = u16(len(prior)) + prior + (build_wire(rng) if rng.random() < 0.4 else b"")
+        cx, multi = [k, running], 1
+    ents = []
+    for now in nows:
+        mac, data, hk = ref_sign(wire, k, oid, now, fudge, 0, b"", rmac, running=running)
+        ents.append(hent(hk[0], hk[1], data))
+        if multi:
+            ents.append(hent(k[2], k[1], u16(len(mac)) + mac))
+    return [12, wire, k, list(k[0]), rd, nows, rmac, cx, multi, table(*ents)]
+
+
 RESPONSE_ERRORS = [0, 16, 17, 18, 22]   # NOERROR, BADSIG, BADKEY, BADTIME, BADTRUNC
 
 
@@ -1399,6 +1449,9 @@ def gen_response_case(rng, error, alg=None):
 def cases(ctx):
     rng = ctx.rng
     yield "tables", [0]
+    # the same Message object rendered 2..3 times: single message, first envelope, later envelope
+    for i in range(ctx.n(36, 600)):
+        yield "rerender", gen_rerender_case(rng, i % 3)
     # every TSIG error a response can carry x every algorithm
     for i in range(ctx.n(45, 450)):
         yield "response", gen_response_case(rng, RESPONSE_ERRORS[i % 5], ALG_LABELS[(i // 5) % 9])
@@ -1623,6 +1676,33 @@ def oracle(ctx, kind, case, out):
                 if running is not None:
                     running += w
             else:
+                break
+    elif op == 12:
+        _, wire, k, owner, rd, nows, rmac, cx, multi, _ = case
+        if isinstance(out, Err):
+            fail("rendering a signed message failed: " + out.text, sig="rerender-failed")
+            return F
+        running = cx[1] if cx is not None and multi else None
+        for i, (now, o) in enumerate(zip(nows, out)):
+            if isinstance(o, Err):
+                fail("render %d of the same Message object failed: %s" % (i + 1, o.text), sig="rerender-failed")
+                break
+            full, pr = o
+            mac, data, hk = ref_sign(wire, k, rd[4], now, rd[2], rd[5], rd[6], rmac, running=running)
+            want_full = append_tsig(wire, plain_wire(k[0]), rd[0], now, rd[2], mac, rd[4], rd[5], rd[6])
+            v = rfc_verdict(full, k[0], k[1], k[2], rmac, now, running=running)
+            if v[0] != "accept" or full != want_full:
+                fail("render %d of the same Message object (multi=%d, tsig_ctx argument %s) does not carry the RFC 8945 MAC of %s: %s"
+                     % (i + 1, multi, "given" if cx is not None else "None", "a later envelope" if running is not None else "a first/only message", v[:2]),
+                     sig="rerender-mac", render=i + 1)
+                break
+            try:
+                with clock(now):
+                    m = dns.message.from_wire(full, keyring=mk_key(k), request_mac=rmac, tsig_ctx=mk_ctx(cx), multi=bool(multi))
+                if not m.had_tsig:
+                    fail("render %d read back without TSIG" % (i + 1), sig="rerender-reject")
+            except Exception as e:  # noqa
+                fail("render %d of the same Message object does not validate: %s" % (i + 1, type(e).__name__), sig="rerender-reject", render=i + 1)
                 break
     elif op == 11:
         _, qwire, rbody, k, rdq, rdr, now, _ = case
